@@ -363,7 +363,11 @@ FOR_LOOP:
 			// NOTE: we can probably make this more efficient, but note that calling
 			// first.Hash() doesn't verify the tx contents, so MakePartSet() is
 			// currently necessary.
-			err := state.Validators.VerifyCommitLight(
+			// NOTE: every signature is checked (VerifyCommit, not VerifyCommitLight):
+			// second.LastCommit is stored below as the seen commit of first, and
+			// consensus rebuilds its LastCommit from it (reconstructLastCommit), which
+			// panics on any signature that does not verify.
+			err := state.Validators.VerifyCommit(
 				chainID, firstID, first.Height, second.LastCommit)
 
 			if err == nil {
